@@ -483,6 +483,24 @@ def check_content(ctx, case, scope, targets, before, after):
 PRE = {"empty": b"", "one": b"\n"}
 
 
+def _never_crash(fn):
+    """an exception while judging one run (model output in an unexpected form, evo's files in an unexpected state) is a
+    finding about that run — a correspondence mismatch —, never the end of the whole check"""
+    import functools
+
+    @functools.wraps(fn)
+    def wrapped(ctx, case, *a, **kw):
+        try:
+            return fn(ctx, case, *a, **kw)
+        except core.ToolError:
+            raise
+        except Exception as e:  # noqa: BLE001
+            c = {k: v for k, v in case.items() if k not in ("per", "other_prompts")}
+            ctx.mismatch(c, f"{fn.__name__}: the run could not be judged ({type(e).__name__}: {str(e)[:160]})", None, None)
+    return wrapped
+
+
+@_never_crash
 def judge_single(ctx, case, e, targets, enabled, answers, prompts, exc, before, after, model_line, tolerate_typeerror=False):
     """one or several independent single-file targets written by the same guard"""
     created = sorted(set(after) - set(before))
@@ -546,6 +564,7 @@ def expected_multi(files_exist, enabled, answers):
     return keep
 
 
+@_never_crash
 def judge_multi(ctx, case, files, enabled, answers, prompts, exc, before, after, model_line):
     if exc is not None and not (case.get("pk") == "path" and exc.startswith("TypeError")):
         ctx.mismatch(case, "the command / writer raised", exc, None)
@@ -595,6 +614,7 @@ COMBOS = {
 }
 
 
+@_never_crash
 def judge_combo(ctx, case, enabled, prompts, exc, before, after, outs):
     """several outputs requested in one call: every existing target gets its own question, in the order evo writes"""
     per = case["per"]
@@ -603,7 +623,13 @@ def judge_combo(ctx, case, enabled, prompts, exc, before, after, outs):
         ctx.mismatch(case, "the command raised", exc, None)
     want_prompts = 0
     for (tgt, ex, a), out in zip(per, outs):
-        m_prompted, m_wrote = out.split(";")[0].split()
+        if len(out.split(";")[0].split()) != 2:
+            # the regenerated call-site / guard tables no longer contain this site (e.g. the guard moved into a helper the
+            # translator does not recognise): a broken tie, reported as a mismatch; the oracle below still judges the files
+            ctx.mismatch(case, f"target {tgt}: the model has no verdict for this call site ({out[:80]!r})", None, out)
+            m_prompted, m_wrote = ("1" if (ex and enabled) else "0"), ("1" if (not ex or not enabled or a == "y") else "0")
+        else:
+            m_prompted, m_wrote = out.split(";")[0].split()
         impl_wrote = (after.get(tgt) != before.get(tgt)) if ex else (tgt in after)
         if (m_wrote == "1") != impl_wrote:
             ctx.mismatch(case, f"target {tgt}: written={impl_wrote}, model says {m_wrote}", impl_wrote, m_wrote)
